@@ -51,3 +51,34 @@ CASES = [
     S("s-weights-late", "weights re-assigned to the positional vector before the loop (dependent statements)",
       (LOOP, "            weights = self.weights_\n" + LOOP)),
 ]
+
+MASK = ("            if self.weights_[t] == 0:\n                pred[t] = np.zeros(len(X))\n            else:\n"
+        "                pred[t] = np.asarray(self._hs[t](X))\n")
+DOT = "            positive_probs = pred[self.weights_.index].dot(self.weights_).to_frame()\n"
+CAT = "            return np.concatenate((1 - positive_probs, positive_probs), axis=1)\n"
+PLOOP = "        for t in range(len(self._hs)):\n"
+
+CASES += [
+    # ---- _pmf_predict (lifted since L1: zero mask, dot pairing, the two columns) ----------------------------- refactors
+    R("r-pmf-rename", "rename pred / t / positive_probs in _pmf_predict",
+      ("        pred = pd.DataFrame()\n" + PLOOP + MASK, "        outputs = pd.DataFrame()\n        for k in range(len(self._hs)):\n"
+       + MASK.replace("pred[t]", "outputs[k]").replace("weights_[t]", "weights_[k]").replace("_hs[t]", "_hs[k]")),
+      (DOT + CAT, "            probs = outputs[self.weights_.index].dot(self.weights_).to_frame()\n            return np.concatenate((1 - probs, probs), axis=1)\n"),
+      ("        else:\n            return pred\n", "        else:\n            return outputs\n")),
+    R("r-pmf-mask-ne", "`if self.weights_[t] != 0:` with exchanged branches",
+      (MASK, "            if self.weights_[t] != 0:\n                pred[t] = np.asarray(self._hs[t](X))\n            else:\n                pred[t] = np.zeros(len(X))\n")),
+    R("r-pmf-zero-left", "`0 == self.weights_[t]`, range(0, n)", (MASK, MASK.replace("self.weights_[t] == 0", "0 == self.weights_[t]")),
+      (PLOOP, "        for t in range(0, len(self._hs)):\n")),
+    R("r-pmf-temp-mix", "temporary for the mixture before .to_frame()", (DOT, "            mix = pred[self.weights_.index].dot(self.weights_)\n            positive_probs = mix.to_frame()\n")),
+    R("r-pmf-list-concat", "np.concatenate([..], axis=1) with a list", (CAT, "            return np.concatenate([1 - positive_probs, positive_probs], axis=1)\n")),
+    # ------------------------------------------------------------------ semantic edits
+    S("s-pmf-mask-ones", "zero-weight predictors contribute a column of ones", (MASK, MASK.replace("np.zeros(len(X))", "np.ones(len(X))"))),
+    S("s-pmf-mask-flipped", "mask test inverted (outputs only for zero weights)", (MASK, MASK.replace("== 0", "!= 0"))),
+    S("s-pmf-mask-threshold", "mask at weight 1", (MASK, MASK.replace("== 0", "== 1"))),
+    S("s-pmf-dot-positional", "positional dot product", (DOT, "            positive_probs = pd.Series(pred.values.dot(self.weights_.values)).to_frame()\n")),
+    S("s-pmf-dot-values", "positional dot product through .values on the weights only", (DOT, "            positive_probs = pred.dot(self.weights_.values).to_frame()\n")),
+    S("s-pmf-cols-swapped", "columns [p, 1 - p]", (CAT, "            return np.concatenate((positive_probs, 1 - positive_probs), axis=1)\n")),
+    S("s-pmf-col0-wrong", "column 0 = p", (CAT, "            return np.concatenate((positive_probs, positive_probs), axis=1)\n")),
+    S("s-pmf-loop-short", "the last stored predictor is skipped", (PLOOP, "        for t in range(len(self._hs) - 1):\n")),
+    S("s-cls-lt", "classification `<`", (CLS, CLS.replace(">=", "<"))),
+]
